@@ -15,6 +15,7 @@ mod profiles;
 mod report;
 mod scale;
 mod shared;
+mod typed;
 
 use alloc::raw_write;
 use exec::DtorSnap;
@@ -328,8 +329,13 @@ fn do_run(rc: &RunCfg<'_>, run: u64) {
         Mode::DiffStd => {
             report::F_DIFFSTD.store(true, Relaxed);
             let mut rng = Rng(hist_seed);
-            let prog = diffstd::generate(&mut rng, rc.thorough);
-            run_digest = diff_one(p.name, rc.seed, run, &prog, layout_seed);
+            if cfg_rng.chance(1, 4) {
+                let (ty, prog) = typed::generate(&mut rng);
+                run_digest = typed_one(p.name, rc.seed, run, ty, &prog, layout_seed);
+            } else {
+                let prog = diffstd::generate(&mut rng, rc.thorough);
+                run_digest = diff_one(p.name, rc.seed, run, &prog, layout_seed);
+            }
         }
         Mode::AbortEnum => {
             // the fault-free base execution is judged like any other history; only the
@@ -397,6 +403,41 @@ fn do_run(rc: &RunCfg<'_>, run: u64) {
                     note_case(p.name, &o, &f, 0);
                     run_digest = fnv(run_digest, o.digest);
                 }
+            }
+            // combinations: scripts at two destructor positions of the same history, and
+            // longer scripts (three to four actions) at one position
+            let combos = if n == 0 { 0 } else if rc.thorough { 40 } else { 8 };
+            for _ in 0..combos {
+                let k1 = fault_rng.below(n);
+                let c1 = script_candidates(&base.dtors[k1], &mut fault_rng, &mut fresh);
+                let mut scripts: Vec<(u32, Vec<Op>)> = vec![];
+                let mut s1: Vec<Op> = c1.first().cloned().unwrap_or_default();
+                if fault_rng.chance(1, 2) {
+                    if let Some(more) = c1.get(1) {
+                        s1.extend(more.iter().cloned());
+                    }
+                    if let Some(more) = c1.get(2) {
+                        s1.extend(more.iter().cloned());
+                    }
+                }
+                scripts.push((k1 as u32, s1));
+                if n > 1 && fault_rng.chance(2, 3) {
+                    let mut k2 = fault_rng.below(n);
+                    if k2 == k1 {
+                        k2 = (k1 + 1) % n;
+                    }
+                    let c2 = script_candidates(&base.dtors[k2], &mut fault_rng, &mut fresh);
+                    if let Some(s2) = c2.first() {
+                        scripts.push((k2 as u32, s2.clone()));
+                    }
+                }
+                let f = Faults { panic_at: vec![], scripts, inline: base.inline.clone() };
+                let head = ctx_head(p.name, rc.seed, run, exec_i, &[layout_seed], &f);
+                exec_i += 1;
+                let o = execute(&head, Source::Explicit(&base.ops), &f, layout_seed, &opts);
+                st(St::f_script_combos, 1);
+                note_case(p.name, &o, &f, 0);
+                run_digest = fnv(run_digest, o.digest);
             }
         }
     }
@@ -545,6 +586,36 @@ fn c16_scenario(pname: &str, head: &str, ops: &[Op], f: &Faults, layout_seed: u6
             }
         }
     }
+}
+
+/// C07, payload-type variety: one typed program on both families.
+fn typed_one(pname: &str, seed: u64, run: u64, ty: u32, prog: &[typed::T], layout_seed: u64) -> u64 {
+    alloc::reset(layout_seed, true);
+    report::reset_flags();
+    let text = typed::prog_text(ty, prog);
+    let head = format!("{{\"type\":\"violation\",\"profile\":\"{pname}\",\"seed\":{seed},\"run\":{run},\"exec\":0,\"layouts\":[{layout_seed}],\"faults\":\"\",\"ops\":\"{}", json_escape(&text));
+    report::ctx_begin(&head);
+    st(St::execs, 1);
+    let mut on_step = |i: usize| report::STEP.store(i as u32 + 1, Relaxed);
+    let r = std::panic::catch_unwind(std::panic::AssertUnwindSafe(|| typed::run_both(ty, prog, &mut on_step)));
+    let (equal, step, c, sd, obs) = match r {
+        Ok(o) => o,
+        Err(_) => report::violation("internal-panic", "panic-in-differential-run", &format!("a panic escaped while executing the typed program at {}", last_panic_location())),
+    };
+    st(St::calls, prog.len() as u64 * 2);
+    st(St::steps, prog.len() as u64);
+    st(St::p_typed_programs, 1);
+    if !equal {
+        report::STEP.store(step as u32 + 1, Relaxed);
+        let cause = prog.get(step).map(|d| d.text().split(' ').next().unwrap_or("").to_string()).unwrap_or_else(|| "end-of-program".to_string());
+        report::violation("std-divergence", &format!("typed-{cause}"), &format!("payload type {}: at call {} ({}) cactusref observed [{}] but std::rc observed [{}]", typed::TYPE_NAMES[ty as usize % typed::TYPE_NAMES.len()], step, prog.get(step).map(|d| d.text()).unwrap_or_default(), c, sd));
+    }
+    let h = fnv_bytes(0xcbf29ce484222325, text.as_bytes());
+    if obs >= 4 {
+        st(St::nontrivial, 1);
+        shared::distinct_insert(h);
+    }
+    fnv(h, obs as u64)
 }
 
 /// C07: one program on both families.
@@ -698,8 +769,15 @@ fn replay(a: &Args) -> i32 {
         alloc::set_fault_reporter(report::on_fault);
         install_panic_hook();
         report::F_DIFFSTD.store(true, Relaxed);
-        let prog = diffstd::parse_prog(a.get("--ops").unwrap_or("")).unwrap_or_else(|e| die(&e));
         let l: u64 = a.get("--layouts").unwrap_or("1").split(',').next().unwrap().parse().unwrap_or(1);
+        let text = a.get("--ops").unwrap_or("");
+        if text.trim_start().starts_with("Type ") {
+            let (ty, prog) = typed::parse_prog(text).unwrap_or_else(|e| die(&e));
+            let d = typed_one(pname, a.num("--seed", 0), a.num("--run", 0), ty, &prog, l);
+            out(&format!("{{\"type\":\"ok\",\"digest\":\"{d:016x}\"}}\n"));
+            return 0;
+        }
+        let prog = diffstd::parse_prog(text).unwrap_or_else(|e| die(&e));
         let d = diff_one(pname, a.num("--seed", 0), a.num("--run", 0), &prog, l);
         out(&format!("{{\"type\":\"ok\",\"digest\":\"{d:016x}\"}}\n"));
         return 0;
